@@ -563,7 +563,6 @@ theorem leafDeleteOne_spec (k : Key) (rid : RowId) :
         have hne2 : ¬ k' = k := by omega
         rw [if_neg hne2]
         have := ih hs.2 (fun e he => hne e (by simp [he])) h'
-        simp only at this
         rw [this]
       · rename_i hge
         have hl := amEraseOne_later k' es k rid hs.1 hge
@@ -596,7 +595,6 @@ theorem leafDeleteOne_spec (k : Key) (rid : RowId) :
         | some es2 =>
           simp [hrec] at h
           have := ih es2 hs.2 (fun e he => hne e (by simp [he])) hrec
-          simp only at this
           rw [← h, this]
       · rename_i hge
         have hl := amEraseOne_later k' es k rid hs.1 hge
